@@ -332,8 +332,9 @@ def check_property(pid, tier, module=None, level="other", assumptions=(), explan
     wall = round(time.time() - t_start, 2)
     ev = make_evidence(pid, tier, seed, level, builds, conds, results, violations, known_hits,
                        harness_errors, wall, assumptions, explanation, extra_evidence)
-    os.makedirs(os.path.join(VERIF, "evidence"), exist_ok=True)
-    with open(os.path.join(VERIF, "evidence", pid + ".json"), "w") as f:
+    evdir = os.environ.get("VERIF_EVIDENCE_DIR") or os.path.join(VERIF, "evidence")
+    os.makedirs(evdir, exist_ok=True)
+    with open(os.path.join(evdir, pid + ".json"), "w") as f:
         json.dump(ev, f, indent=1, sort_keys=True)
     # --- report -------------------------------------------------------------------
     seen = set()
